@@ -397,6 +397,62 @@ def string_histories(ctx, binary):
     return n
 
 
+POSITION_TEXTS = ["abc", "hello world", "a", "éab", "aéb", "abé", "日本語x", "a😀b😀"]
+POSITIONS_KNOWN = "string-positions/bytes-vs-characters"
+
+
+def string_positions(ctx, binary):
+    """ONE notion of position: the number `index_of` returns, the numbers below `len()` and the offsets `substring` takes
+    denote the same places as the index of `s[i]` (property: each returns "the value its meaning defines"; a position has one
+    meaning).  Probes, each its own program: s[get s.index_of(p)] is the first character of p; s[s.len() - 1] is the last
+    character; s.substring(i, i + 1) == s[i] for every index i of s.  On ASCII text any deviation is a violation of its own
+    class.  On multi-byte text the implementation mixes units (len / index_of / substring / insert / delete / split count
+    UTF-8 bytes, `s[i]` counts characters): a deviation that is exactly what this mixture predicts is reported under the one
+    class POSITIONS_KNOWN, anything else under the probe's own class."""
+    base = ctx.mktemp()
+    FAILS = ("<fail>",)
+    progs = []
+    for t in POSITION_TEXTS:
+        e = t.encode("utf8")
+        ascii_only = len(e) == len(t)
+        lit = '"%s"' % t
+        for c in sorted(set(t)):
+            b = e.find(c.encode("utf8"))
+            progs.append(("index-of-then-index", t, ascii_only, 's = %s\ni = get s.index_of("%s")\nprint s[i]\n' % (lit, c), [c], [t[b]] if b < len(t) else FAILS))
+        progs.append(("len-minus-one", t, ascii_only, "s = %s\nprint s[s.len() - 1]\n" % lit, [t[-1]], [t[len(e) - 1]] if len(e) - 1 < len(t) else FAILS))
+        for i in range(len(t)):
+            cut = byte_cut(t, i) is not None and byte_cut(t, i + 1) is not None
+            mixed = [("true" if e[i:i + 1].decode("utf8") == t[i] else "false")] if cut else FAILS
+            progs.append(("substring-vs-index", t, ascii_only, "s = %s\ni = %d\nprint s.substring(i, i + 1) == s[i]\n" % (lit, i), ["true"], mixed))
+
+    def one(p):
+        d = programs.materialize({"files": {"t.ms": p[3]}}, base)
+        return programs.run_bin(binary, ["run", "t.ms", "-q"], d)
+    n = known = 0
+    for (probe, t, ascii_only, src, exp, mixed), (rc, out, err) in zip(progs, programs.pmap(one, progs)):
+        n += 1
+        got = out.split("\n")[:-1]
+        if rc == 0 and got == exp:
+            continue
+        if "Did not compile" in err:
+            ctx.report("string-positions/rejected", "a position probe was rejected by the compiler: %s" % (out + err)[-300:], {"program": src, "stderr": (out + err)[-600:]}, found_input=False)
+            continue
+        stopped = rc == 1 and not got
+        as_mixed = (not ascii_only) and ((mixed is FAILS and stopped) or (mixed is not FAILS and rc == 0 and got == list(mixed)))
+        if as_mixed:
+            known += 1
+            if known > 3:
+                continue
+        ctx.report(POSITIONS_KNOWN if as_mixed else "string-positions/%s/%s" % (probe, "ascii" if ascii_only else "multi-byte"),
+                   "positions in \"%s\" (%s): %s, one notion of position demands %r%s"
+                   % (t, probe, "the program stops (exit %d): %s" % (rc, ([l.strip() for l in err.split("\n") if re.match(r"\s*\d+: ", l)] or [""])[-1][:120]) if rc != 0 else "printed %r" % got, exp,
+                      "; len / index_of / substring count UTF-8 bytes while s[i] counts characters" if as_mixed else ""),
+                   {"program": src, "expected": exp, "observed": got, "rc": rc, "stderr": err[-400:], "how": "mscript run t.ms -q"})
+    ctx.cov["string_position_programs"] = n
+    ctx.cov["string_position_programs_mixing_units"] = known
+    return n
+
+
 def run_all(ctx, binary, cases, expect_fail, batch=120):
     """every case is executed exactly once (cases behind a stopping call are re-batched)"""
     base = ctx.mktemp()
@@ -1214,8 +1270,9 @@ def run(ctx):
         if o[0] == "ok" and spec[0] == "val" or o[0] in ("err", "panic"):
             nontrivial.add(repr(case))
     nhist = string_histories(ctx, binary)
-    spec_fail += sum(1 for v in ctx.viol if v[0].startswith("string-history"))
-    ctx.cov["evaluations"] = len(cases) + nhist
+    npos = string_positions(ctx, binary)
+    spec_fail += sum(1 for v in ctx.viol if v[0].startswith(("string-history", "string-positions")))
+    ctx.cov["evaluations"] = len(cases) + nhist + npos
     ctx.cov["distinct_nontrivial"] = len(nontrivial)
     ctx.cov["rule"] = ("one evaluation = one built-in call executed by the real interpreter and compared with the Coq impl-model, the Coq "
                        "specification and the Python oracle; non-trivial = distinct call whose outcome the specification fixes (a demanded value, or a demanded stop)")
